@@ -185,6 +185,29 @@ def run(ctx):
     ctx.note("R17.3: %d unwrap/expect sites; not on shared lookups (listed, not alarmed): %s" % (n_unwrap, listed[:12]))
     ctx.floor("R17.3", "unwrap/expect sites surveyed", n_unwrap, 8)
 
+    # ---- R17.6 std APIs that panic on a zero size/step need a non-zero argument ------------------------------
+    ZERO_PANICS = ("::chunks", "::chunks_exact", "::chunks_mut", "::chunks_exact_mut", "::rchunks", "::rchunks_mut", "::windows", "::step_by")
+    n_zero = 0
+    for name, f in F.fns.items():
+        for b, t in f.calls():
+            cl = t["callee"]
+            if not (cl.startswith("core::slice::") or cl.startswith("std::iter::Iterator::step_by") or "<impl [T]>" in cl) or not cl.endswith(tuple(x.lstrip(":") for x in ZERO_PANICS)):
+                continue
+            n_zero += 1
+            size = f.op_origin(t["args"][1])
+            okz = size[0] == "const" and isinstance(size[1], int) and size[1] > 0
+            if not okz:
+                # dominated by a test that the size is > 0 / != 0 ?
+                for bb, expr, tt, ft in bool_branches(f):
+                    if expr[0] == "binop" and expr[1] == "Lt" and expr[2] == ("const", 0, "usize") and strip_site(expr[3]) == strip_site(size) and f.edge_dominates((bb, tt), b):
+                        okz = True
+                    if expr[0] == "binop" and expr[1] in ("Eq",) and ("const", 0, "usize") in (expr[2], expr[3]) and strip_site(size) in (strip_site(expr[2]), strip_site(expr[3])) and f.edge_dominates((bb, ft), b):
+                        okz = True
+            ctx.check(okz, "R17.6", "%s|zero-size-%s" % (name, cl.split("::")[-1]),
+                      "%s panics when its size argument is 0: the argument must be a positive constant or be tested non-zero first (e.g. len / 2 is 0 for a one-element buffer, which a valid configuration produces)" % cl.split("::")[-1],
+                      f.where(b), "size = %s" % fmt(size))
+    ctx.note("R17.6: %d zero-panicking std call(s) analysed" % n_zero)
+
     # ---- R17.4 background loops --------------------------------------------------------------------------
     spawn = F.spawn_closures()
     ctx.floor("R17.4", "background thread closures", len(spawn), 3)
